@@ -20,9 +20,9 @@ var components = map[string]string{
 
 func (Engine) Plan(property, tier string) core.Plan {
 	p := core.Plan{Level: "exploration", MaxWall: 150, Components: components}
-	runs := map[string]int{"C15": 90000, "C16": 90000}[property]
+	runs := map[string]int{"C15": 300000, "C16": 250000}[property]
 	if tier == "thorough" {
-		runs *= 10
+		runs *= 8
 		p.MaxWall = 1500
 	}
 	p.Runs = runs
